@@ -161,7 +161,7 @@ func runSweep(root string, idx int, sc *sweepCase) error {
 func Run(c *gen.Ctx) error {
 	r := gen.NewRand(c.Seed)
 	meta := &gen.Meta{Property: "C17", Distribution: map[string]any{}}
-	nHist, nSweep := 150, 8
+	nHist, nSweep := 150, 12
 	if c.Thorough() {
 		nHist, nSweep = 3000, 150
 	}
@@ -240,6 +240,7 @@ func Run(c *gen.Ctx) error {
 	pinned := &sweepCase{Config: GenConfig(gen.NewRand(7)), Schema: map[string]string{"a.graphqls": "scalar Custom\ntype user_profile { a: Int }\ntype UserProfile { b: Int }\nunion Either = user_profile | UserProfile\ntype Query { one: user_profile two: UserProfile either: Either }\n"}}
 	pinned2 := &sweepCase{Config: GenConfig(gen.NewRand(8)), Schema: map[string]string{"a.graphqls": "scalar Custom\ntype Query { f(_: Int): Int }\n"}}
 	cases = append(cases, pinned, pinned2)
+	cases = append(cases, idiomProjects()...)
 	nSweep = len(cases)
 	errs := make([]error, nSweep)
 	var wg sync.WaitGroup
